@@ -350,7 +350,7 @@ def check_case(case, rec=None):
     return check_release(case, rec) if case["mode"] == "release" else check_iterate(case, rec)
 
 
-N = {"quick": 400, "thorough": 6000}
+N = {"quick": 400, "thorough": 3000}
 
 
 def shard_plan(tier):
